@@ -426,6 +426,8 @@ def run(ctx, crate):
     for k, d in enumerate(somes):
         ef = edge_facts(b, d["bb"])
         ok = flag1 in ef or flag0n in ef or want <= ef
+        if not ok:
+            ok = _flag_true_at(b, heads, d["bb"])
         ctx.check(ok, rule, "some-iff-flag#%d" % k, b.name, "%s:%d" % (b.file, d.get("line", 0)),
                   "the partial cell is present only when the flag is set", "a partial cell can be present although the flag is 0 (the bar would be one cell too wide)", cfg)
         sl = b.slice_rv(d["bb"], {"lhs": d["lhs"], "rv": d["rv"]})
@@ -437,9 +439,45 @@ def run(ctx, crate):
         adds = [a for a in sl.atoms if a[0] == "binop" and a[1] in ("Add", "AddWithOverflow")] + [c for c in sl.calls if c.matches(r"core::num::<impl usize>::(saturating_add|wrapping_add|checked_add)")]
         ctx.check(not adds, rule, "index-never-grows#%d" % k, b.name, "%s:%d" % (b.file, d.get("line", 0)),
                   "the index is obtained by subtraction from the last fine-grained entry only", "the partial cell's index is increased (can leave the configured characters)", cfg)
+    def bool_root(op, depth=0):
+        """(root bool local, negated) through single-definition copies and `!`"""
+        l = operand_local(op) if isinstance(op, dict) else None
+        if l is None or (isinstance(op, dict) and op.get("place", {}).get("p")):
+            return None
+        neg = False
+        for _ in range(6):
+            ds = [d_ for d_ in b.defs().get(l, ()) if d_["kind"] != "param"]
+            if len(ds) == 1 and ds[0]["kind"] == "assign" and ds[0]["rv"]["k"] == "use" and operand_local(ds[0]["rv"]["op"]) is not None and not ds[0]["rv"]["op"]["place"]["p"]:
+                l = operand_local(ds[0]["rv"]["op"])
+            elif len(ds) == 1 and ds[0]["kind"] == "assign" and ds[0]["rv"]["k"] == "un" and ds[0]["rv"].get("op") == "Not":
+                neg = not neg
+                l = operand_local(ds[0]["rv"].get("a"))
+            else:
+                break
+        return (l, neg) if l is not None else None
+
+    def flag_value_at(bb):
+        """value of the partial-cell flag (the bool converted into `head`) at bb, from dominating tests of the same bool"""
+        if not heads or len(heads) != 1:
+            return None
+        src = bool_root(heads[0].args[0])
+        if not src:
+            return None
+        for sb, t in b.switches():
+            r = bool_root(t["op"])
+            if not r or r[0] != src[0]:
+                continue
+            tf = true_false_edges(b, sb, t)
+            if not tf:
+                continue
+            for e_, val in ((tf[0], True), (tf[1], False)):
+                if b.edge_dominates(e_, bb):
+                    root_val = val != r[1]            # the tested operand is root xor r.neg
+                    return root_val != src[1]         # the flag is root xor src.neg
+        return None
     for k, d in enumerate(nones):
         ef = edge_facts(b, d["bb"])
-        ok = norm_fact("Ne", ("l", head_local), ("c", "1")) in ef or norm_fact("Eq", ("l", head_local), ("c", "0")) in ef
+        ok = norm_fact("Ne", ("l", head_local), ("c", "1")) in ef or norm_fact("Eq", ("l", head_local), ("c", "0")) in ef or flag_value_at(d["bb"]) is False
         ctx.check(ok, rule, "none-iff-no-flag#%d" % k, b.name, "%s:%d" % (b.file, d.get("line", 0)),
                   "no partial cell only when the flag is 0", "the partial cell is dropped although the flag is 1 (the bar would be one cell short)", cfg)
 
@@ -750,3 +788,39 @@ def rule_cur_range(ctx, crate, b, somes, then_closures=(), rule="R-BAR-CUR"):
                       "the partial cell's index ranges over %s*n%+g ..= %s*n%+g: it can be %s - the bar then shows one filled cell too many (it looks complete before position reaches "
                       "the length) or a background cell in the middle" % (lo[0], lo[1], hi[0], hi[1], "0, the filled glyph" if not ge1 else "n+1, the background glyph"), cfg)
     ctx.floor(rule, n_chk, 1, cfg, "computed partial-cell indices (fine-grained branch)")
+
+
+def _flag_true_at(b, heads, bb):
+    """the bool converted into the partial-cell flag is known true at bb (dominating test of the same bool, through `!`/copies)"""
+    if not heads or len(heads) != 1:
+        return False
+
+    def bool_root(op):
+        l = operand_local(op) if isinstance(op, dict) else None
+        if l is None or op.get("place", {}).get("p"):
+            return None
+        neg = False
+        for _ in range(6):
+            ds = [d_ for d_ in b.defs().get(l, ()) if d_["kind"] != "param"]
+            if len(ds) == 1 and ds[0]["kind"] == "assign" and ds[0]["rv"]["k"] == "use" and operand_local(ds[0]["rv"]["op"]) is not None and not ds[0]["rv"]["op"]["place"]["p"]:
+                l = operand_local(ds[0]["rv"]["op"])
+            elif len(ds) == 1 and ds[0]["kind"] == "assign" and ds[0]["rv"]["k"] == "un" and ds[0]["rv"].get("op") == "Not":
+                neg = not neg
+                l = operand_local(ds[0]["rv"].get("a"))
+            else:
+                break
+        return (l, neg) if l is not None else None
+    src = bool_root(heads[0].args[0])
+    if not src:
+        return False
+    for sb, t in b.switches():
+        r = bool_root(t["op"])
+        if not r or r[0] != src[0]:
+            continue
+        tf = true_false_edges(b, sb, t)
+        if not tf:
+            continue
+        for e_, val in ((tf[0], True), (tf[1], False)):
+            if b.edge_dominates(e_, bb) and ((val != r[1]) != src[1]) is True:
+                return True
+    return False
